@@ -737,7 +737,7 @@ def do_check(prop, tier, only, jobs):
             rp = run_harness(h, base_t, dst, scratch, envadd, playback=True)
             tests = PLAYBACK_RE.findall(rp.get("playback_out", ""))
             sliced = False
-            if not tests and rp.get("status") in ("OOM", "TIMEOUT"):
+            if not tests:  # OOM / timeout / the Kani driver itself dying on the size of the unsliced trace
                 log("  playback of %s without formula slicing ended %s; trying with slicing" % (h["name"], rp.get("status")))
                 rp = run_harness(h, base_t, dst, scratch, envadd, playback=True, sliced_playback=True)
                 tests = PLAYBACK_RE.findall(rp.get("playback_out", ""))
